@@ -9,11 +9,13 @@ package main
 import (
 	"context"
 	"fmt"
+	"os"
 	"strings"
 	"time"
 
 	"anndbverif/explore"
 	"anndbverif/lib/ev"
+	"anndbverif/lib/racepass"
 	"anndbverif/vrt"
 	vctx "anndbverif/vrt/context"
 	"anndbverif/vrt/fakes"
@@ -32,6 +34,10 @@ type variant struct {
 	unknown   uint64
 	cancel    bool
 	maxQuick  int
+	// ownView: node -> the placement that node itself believes in (its catalogue is ahead of the asker's);
+	// trueHost: partition -> the node that really holds the partition's current contents
+	ownView  map[uint64][][]uint64
+	trueHost map[int]uint64
 }
 
 var sizes = []int{1, 2, 4} // unique subset sums: any omission or double count changes the total
@@ -47,15 +53,30 @@ func build(v variant) *explore.Scenario {
 			if v.unknown != 0 {
 				knows = func(a, b uint64) bool { return !(a == 1 && b == v.unknown) }
 			}
+			world.OwnView = nil
+			if v.ownView != nil {
+				world.OwnView = func(node uint64) [][]uint64 { return v.ownView[node] }
+			}
 			c := world.NewDatasetCluster(v.nodes, 1, pb.Space_Euclidean, v.placement, 2, knows)
+			world.OwnView = nil
 			x.OnCleanup(c.Close)
 			P := len(v.placement)
 			for p := 0; p < P; p++ {
 				for _, n := range c.Nodes {
-					if !c.Hosts(n.ID, p) {
+					count := sizes[p]
+					if th, moved := v.trueHost[p]; moved {
+						// the partition has moved: its current contents are on the true host, the former host
+						// still holds a stale, smaller copy
+						if n.ID != th && !c.Hosts(n.ID, p) {
+							continue
+						}
+						if n.ID != th {
+							count = sizes[p] - 1
+						}
+					} else if !c.Hosts(n.ID, p) {
 						continue
 					}
-					for i := 0; i < sizes[p]; i++ {
+					for i := 0; i < count; i++ {
 						id := world.ID(uint64(100*p+i+1), 1)
 						if err := n.DS.VerifPartition(p).Index().Insert(id, []float32{float32(i)}, index.Metadata{"k": strings.Repeat("x", p+1)}, 0); err != nil {
 							panic(err)
@@ -79,7 +100,7 @@ func build(v variant) *explore.Scenario {
 								hosted = true
 							}
 						}
-						if !hosted {
+						if !hosted && v.trueHost == nil {
 							wrongHost = fmt.Sprintf("partition %d asked on %s which does not host it", p, target)
 						}
 					}
@@ -111,6 +132,9 @@ func build(v variant) *explore.Scenario {
 				var wantLen, wantBytes uint64
 				for p := 0; p < P; p++ {
 					host := c.Nodes[v.placement[p][0]-1]
+					if th, moved := v.trueHost[p]; moved {
+						host = c.Nodes[th-1]
+					}
 					wantLen += uint64(host.DS.VerifPartition(p).Len())
 					wantBytes += host.DS.VerifPartition(p).BytesSize()
 				}
@@ -129,8 +153,8 @@ func build(v variant) *explore.Scenario {
 					}
 				}
 				if err != nil {
-					if faultHit || v.cancel {
-						return nil
+					if faultHit || v.cancel || v.trueHost != nil {
+						return nil // a stale asker may fail; it must not succeed with a wrong number
 					}
 					if v.failNode == 0 && v.unknown == 0 {
 						return &explore.Violation{Key: "error-on-healthy-cluster", Desc: fmt.Sprintf("healthy cluster, SizeInfo failed: %v (%s)", err, wrongHost)}
@@ -162,6 +186,110 @@ func build(v variant) *explore.Scenario {
 	}
 }
 
+// buildList: the sizes a node reports for ALL its datasets (DatasetManager.List with sizes): two datasets, the second
+// one with a remote partition; both map iteration orders; the remote lookup healthy or failing.
+func buildList(fail bool, policy int) *explore.Scenario {
+	name := fmt.Sprintf("list-two-datasets-remote-%s-order%d", map[bool]string{false: "healthy", true: "failing"}[fail], policy)
+	return &explore.Scenario{
+		Name:      name,
+		Configure: func(s *vrt.Sched) { s.RandChoose = true; s.MapPolicy = policy },
+		Build: func(x *explore.Exec) func(vrt.EndReason) *explore.Violation {
+			fakes.Reset()
+			c := world.NewDatasetCluster(2, 1, pb.Space_Euclidean, [][]uint64{{1}}, 1, nil)
+			x.OnCleanup(c.Close)
+			metaB, dsB := c.AddDataset(world.ID(0xd6, 0xd5), 1, pb.Space_Euclidean, [][]uint64{{2}}, 1, 8)
+			if err := c.Nodes[0].DS.VerifPartition(0).Index().Insert(world.ID(1, 1), []float32{1}, nil, 0); err != nil {
+				panic(err)
+			}
+			for i := 0; i < 2; i++ {
+				if err := dsB[1].VerifPartition(0).Index().Insert(world.ID(uint64(10+i), 1), []float32{float32(i)}, nil, 0); err != nil {
+					panic(err)
+				}
+			}
+			if fail {
+				fakes.Intercept = func(target, method string, ctx context.Context, req interface{}) (bool, interface{}, error) {
+					if method == "PartitionInfo" && target == world.Addr(2) {
+						return true, nil, fakes.ErrUnavailable
+					}
+					return false, nil, nil
+				}
+			}
+			var list []*pb.Dataset
+			var err error
+			returned := false
+			x.S.Spawn("caller", true, func() {
+				list, err = c.Nodes[0].DM.List(context.Background(), true)
+				returned = true
+			})
+			return func(end vrt.EndReason) *explore.Violation {
+				if !returned {
+					x.Outcome = "blocked"
+					return &explore.Violation{Key: "list-never-returns", Desc: "DatasetManager.List did not return: " + strings.Join(x.S.Blocked(), "; ")}
+				}
+				sizes := map[string]uint64{}
+				for _, d := range list {
+					sizes[fmt.Sprintf("%x", d.Id[:1])] = d.Size
+				}
+				x.Outcome = fmt.Sprintf("sizes=%v err=%v", sizes, err != nil)
+				if fail {
+					if err == nil {
+						return &explore.Violation{Key: "list-success-despite-failed-lookup", Desc: fmt.Sprintf("the size of dataset %x could not be obtained (its only partition is on an unreachable node) but List(withSize) returned %v with nil error", metaB.Id[:1], sizes)}
+					}
+					return nil
+				}
+				if err != nil {
+					return &explore.Violation{Key: "list-error-on-healthy-cluster", Desc: fmt.Sprint(err)}
+				}
+				if len(list) != 2 || sizes["d5"] != 1 || sizes["d6"] != 2 {
+					return &explore.Violation{Key: "list-wrong-sizes", Desc: fmt.Sprintf("List(withSize) reports %v, datasets hold d5:1 d6:2", sizes)}
+				}
+				return nil
+			}
+		},
+	}
+}
+
+// racePass: the same clusters, real goroutines, race detector on (un-instrumented twin built with -race). Sampling.
+func racePass() {
+	world.Quiet()
+	iters := 400
+	if os.Getenv("VERIF_TIER") == "thorough" {
+		iters = 4000
+	}
+	vs := []variant{
+		{name: "P2-one-remote", nodes: 2, placement: [][]uint64{{1}, {2}}},
+		{name: "P2-remote-then-local", nodes: 2, placement: [][]uint64{{2}, {1}}},
+		{name: "P3-remote-local-remote", nodes: 3, placement: [][]uint64{{2}, {1}, {3}}},
+		{name: "P4-remote-remote-local-local", nodes: 3, placement: [][]uint64{{2}, {3}, {1}, {1}}},
+	}
+	reported := map[string]bool{}
+	for _, v := range vs {
+		fakes.Reset()
+		c := world.NewDatasetCluster(v.nodes, 1, pb.Space_Euclidean, v.placement, 2, nil)
+		P := len(v.placement)
+		var wantLen, wantBytes uint64
+		for p := 0; p < P; p++ {
+			n := c.Nodes[v.placement[p][0]-1]
+			for i := 0; i < 1<<uint(p); i++ {
+				if err := n.DS.VerifPartition(p).Index().Insert(world.ID(uint64(100*p+i+1), 1), []float32{float32(i)}, index.Metadata{"k": strings.Repeat("x", p+1)}, 0); err != nil {
+					panic(err)
+				}
+			}
+			wantLen += uint64(n.DS.VerifPartition(p).Len())
+			wantBytes += n.DS.VerifPartition(p).BytesSize()
+		}
+		for i := 0; i < iters; i++ {
+			l, b, err := c.Nodes[0].DS.SizeInfo(context.Background())
+			if (err != nil || l != wantLen || b != wantBytes) && !reported[v.name] {
+				reported[v.name] = true
+				fmt.Printf("FREE-RUNNING-VIOLATION wrong-size: %s: SizeInfo = (%d,%d,%v), sum over partitions = (%d,%d) (iteration %d)\n", v.name, l, b, err, wantLen, wantBytes, i)
+			}
+		}
+		c.Close()
+	}
+	fmt.Printf("RACEPASS iterations=%d variants=%d\n", iters, len(vs))
+}
+
 func counts(asked map[string]int, c *world.DCluster, P int) []int {
 	out := make([]int, P)
 	for p := 0; p < P; p++ {
@@ -174,6 +302,10 @@ func counts(asked map[string]int, c *world.DCluster, P int) []int {
 // is compiled as go 1.23, so the check is done on an instrumented repo function instead: the
 // harness asserts the behaviour through world.LoopVarCanary (see world/canary.go).
 func main() {
+	if len(os.Args) > 1 && os.Args[1] == "--race-pass" {
+		racePass()
+		return
+	}
 	if !world.LoopVarPerLoop() {
 		ev.Tool("instrumented build changed the loop-variable semantics of /repo (go.mod says go 1.14)")
 	}
@@ -183,6 +315,10 @@ func main() {
 		{name: "P2-two-remote-same-node", nodes: 2, placement: [][]uint64{{2}, {2}}},
 		{name: "P2-two-remote", nodes: 3, placement: [][]uint64{{2}, {3}}},
 		{name: "P3-mixed", nodes: 3, placement: [][]uint64{{1}, {2}, {3}}},
+		{name: "P2-remote-then-local", nodes: 2, placement: [][]uint64{{2}, {1}}},
+		{name: "P3-remote-local-remote", nodes: 3, placement: [][]uint64{{2}, {1}, {3}}},
+		// the asker's catalogue lags: it still routes partition 1 to node 2, which has handed it over to node 3
+		{name: "P2-asker-has-stale-placement", nodes: 3, placement: [][]uint64{{1}, {2}}, ownView: map[uint64][][]uint64{2: {{1}, {3}}, 3: {{1}, {3}}}, trueHost: map[int]uint64{1: 3}},
 		{name: "P3-R2", nodes: 3, placement: [][]uint64{{1, 2}, {2, 3}, {3, 2}}, maxQuick: 1},
 		{name: "P2-fail-rpc", nodes: 3, placement: [][]uint64{{2}, {3}}, failNode: 3, failMode: "rpc"},
 		{name: "P2-fail-down", nodes: 2, placement: [][]uint64{{1}, {2}}, failNode: 2, failMode: "down"},
@@ -193,10 +329,16 @@ func main() {
 	for _, v := range vs {
 		scs = append(scs, build(v))
 	}
-	explore.Main("C17", scs, explore.Plan{QuickBound: 3, ThoroughBound: 4, QuickBudget: 100 * time.Second, ThoroughBudget: 15 * time.Minute, Shards: 4},
+	for _, fail := range []bool{false, true} {
+		for _, policy := range []int{0, 1} {
+			scs = append(scs, buildList(fail, policy))
+		}
+	}
+	explore.Main("C17", scs, explore.Plan{QuickBound: 3, ThoroughBound: 4, QuickBudget: 100 * time.Second, ThoroughBudget: 15 * time.Minute, Shards: 4,
+		Before: func(run *ev.Run) ev.Coverage { return racepass.Run(run, os.Getenv("VERIF_C17_RACE")) }},
 		"model_checking", []string{
 			"remote lookups are synchronous in-memory invocations of the target node's real DataManager handler",
 			"partition sizes 1,2,4 items (unique subset sums); contents preloaded into every replica",
-			"sequential consistency between scheduling points; data races are not in scope of this check",
+			"sequential consistency between scheduling points; unsynchronised accesses (e.g. a plain add next to the atomic ones) only through the separate free-running -race pass over the same clusters (sampling, reported as race_pass)",
 		})
 }
